@@ -3,7 +3,8 @@
    Everything below is about [hs_run true]; c14_pool_legacy_refuted is about the original release(). *)
 From Coq Require Import List NArith Bool.
 Import ListNotations.
-From AnySync Require Import Model.Handshake Proofs.HandshakeProofs Proofs.HandshakeRun Proofs.HandshakeTamper.
+From AnySync Require Import Model.Handshake Proofs.HandshakeProofs Proofs.HandshakeRun Proofs.HandshakeTamper
+  Proofs.HandshakeCancel.
 Open Scope N_scope.
 
 (* ---- concrete ends used by the examples *)
@@ -13,19 +14,16 @@ Definition exB (ver : N) (acc : list N) (verify : bool) : side_cfg :=
   mkSide [80; 66; 66; 66] [80; 65; 65; 65] ver acc verify (mkCv 3 false) 1.
 Definition exCase (o i : side_cfg) : hs_case := mkCase o i APass APass APass APass None false pooled_zero pooled_zero.
 
-(* ---- the model satisfies the executable property predicate (no context cancellation) *)
-Theorem c14_model_meets_spec_partial : forall c, k_cancel c = None ->
-  spec_C14 c (fst (hs_run true c)) (snd (hs_run true c)) = true.
-Proof. exact model_meets_spec_nocancel. Qed.
-Print Assumptions c14_model_meets_spec_partial.
-(* Full statement wanted: forall c, spec_C14 c (fst (hs_run true c)) (snd (hs_run true c)) = true.
+(* ---- the model satisfies the executable property predicate: EVERY case -- man in the middle or not, a context
+        cancelled on either side while any frame is in flight or not, either kind of pipe, any pooled objects.
    spec_C14 = spec_C14_core (success justified; honest peers: same verdict, success iff mutual acceptance; cancellation)
-              && tamper_ok (tampered frames never end in success, see c14_tampered_* below).
-   Proved for k_cancel c = None, and, for EVERY c (cancellation included), the two [success_sound] conjuncts
-   (c14_success_justified).  Missing: the cancellation clause of spec_C14 (c14_cancel_safe: a cancelled side fails;
-   the other side fails too except in the two-generals case) -- it is evaluated on every harness case and in the
-   examples c14_cancel_examples, but not proved for all configurations.  (tamper_ok says nothing when a context is
-   cancelled, so nothing is missing there.) *)
+              && tamper_ok (tampered frames never end in success, see c14_tampered_* below; says nothing when a
+                            cancellation can have an effect).
+   (Until 2026-09-23 this was c14_model_meets_spec_partial, proved for k_cancel c = None only; the cancellation clause
+   is c14_cancel_safe below, Proofs/HandshakeCancel.v.) *)
+Theorem c14_model_meets_spec : forall c, spec_C14 c (fst (hs_run true c)) (snd (hs_run true c)) = true.
+Proof. exact model_meets_spec. Qed.
+Print Assumptions c14_model_meets_spec.
 
 Theorem c14_success_justified : forall c oo oi, hs_run true c = (oo, oi) ->
   success_sound (k_in c) (k_out c) (k_a1 c) oi = true /\ success_sound (k_out c) (k_in c) (k_a2 c) oo = true.
@@ -187,9 +185,8 @@ Proof. exact bad4_out_fails. Qed.
 Print Assumptions c14_bad_fourth_frame_fails_initiator.
 
 (* the clauses as the executable predicate evaluated on the implementation's observed outcomes *)
-Theorem c14_model_meets_tamper_clauses : forall c, k_cancel c = None ->
-  tamper_ok c (fst (hs_run true c)) (snd (hs_run true c)) = true.
-Proof. exact model_tamper_ok. Qed.
+Theorem c14_model_meets_tamper_clauses : forall c, tamper_ok c (fst (hs_run true c)) (snd (hs_run true c)) = true.
+Proof. exact model_tamper_ok_all. Qed.
 Print Assumptions c14_model_meets_tamper_clauses.
 
 (* non-vacuity: an oversized size field in each of the four frames, over both kinds of pipe; and observations a buggy
@@ -253,13 +250,10 @@ Proof. vm_compute. repeat split; reflexivity. Qed.
    pooled handshake objects), for whatever accounts, accepted or rejected; every connection's labels (identity, proto
    version, client version) are read again [no]/[ni] times later.  The model's session meets the session predicate
    that the correspondence check evaluates on the labels re-read from the real connection contexts. *)
-Theorem c14_session_labels_stable_partial : forall l po pi,
-  (forall c no ni, In (c, no, ni) l -> k_cancel c = None) ->
-  spec_C14_session (model_session true po pi l) = true.
-Proof. exact model_session_meets_spec. Qed.
-Print Assumptions c14_session_labels_stable_partial.
-(* partial for the same reason as c14_model_meets_spec_partial (the cancellation clause of spec_C14); the stability
-   clause itself holds for every session: *)
+Theorem c14_session_labels_stable : forall l po pi, spec_C14_session (model_session true po pi l) = true.
+Proof. exact model_session_meets_spec_all. Qed.
+Print Assumptions c14_session_labels_stable.
+(* (was c14_session_labels_stable_partial, restricted to sessions without cancellation.)  The stability clause itself: *)
 Theorem c14_labels_stable : forall o n, labels_stable o (later_reads o n) = true.
 Proof. exact labels_stable_later_reads. Qed.
 Print Assumptions c14_labels_stable.
@@ -295,7 +289,47 @@ Example c14_session_nonvacuous :
      | [] => [] end) = false.
 Proof. vm_compute. repeat split; reflexivity. Qed.
 
-(* ---- cancellation (evaluated, not proved in general -- see c14_model_meets_spec_partial) *)
+(* ---- cancellation.  [k_cancel c = Some (side, k)]: the context of one side (true = initiator, false = responder) is
+   cancelled while frame k is in flight.  [cancel_eff c] = that cancellation when it falls into the window in which it
+   can matter: the initiator while frame 1..4 travels, the responder while frame 1..3 travels (when frame 4 travels the
+   responder has returned).
+   Honest peers, reliable stream, cancellation inside the window: the cancelled side ends in an error; the OTHER side
+   ends in an error as well (it meets the closed stream / the deadline) -- the only exception is the unavoidable
+   two-generals case: the initiator is cancelled after it has sent its acknowledgement (k >= 3), the responder already
+   has / is about to receive every frame it waits for, and then it succeeds only if the handshake was mutually
+   acceptable.  (The mirror case -- the responder cancelled after its final ack, k = 4 -- is outside the window:
+   c14_cancel_outside_window_no_effect.) *)
+Theorem c14_cancel_safe : forall c side k, all_pass c = true -> cancel_eff c = Some (side, k) ->
+  is_ok (fst (hs_run true c)) = false /\
+  (is_ok (snd (hs_run true c)) = true ->
+     side = true /\ 3 <= k /\ accepts (k_in c) (k_out c) && accepts (k_out c) (k_in c) = true).
+Proof. exact cancel_safe. Qed.
+Print Assumptions c14_cancel_safe.
+
+(* the same as the clause of the executable predicate, with the success-justification conjuncts, for EVERY case with an
+   effective cancellation (man in the middle included: then only the justification conjuncts say something) *)
+Theorem c14_model_meets_cancel_clause : forall c side k, cancel_eff c = Some (side, k) ->
+  spec_C14_core c (fst (hs_run true c)) (snd (hs_run true c)) = true.
+Proof. exact model_meets_core_cancel. Qed.
+Print Assumptions c14_model_meets_cancel_clause.
+
+(* a cancellation outside the window -- frame number not 1..4, or the responder's context while its own final ack
+   (frame 4) travels -- changes nothing at all, whatever the man in the middle does, for both variants of release() *)
+Theorem c14_cancel_outside_window_no_effect : forall fx c, cancel_eff c = None -> hs_run fx c = hs_run fx (no_cancel c).
+Proof. exact cancel_outside_window. Qed.
+Print Assumptions c14_cancel_outside_window_no_effect.
+
+(* nobody is left waiting: at the end of every run -- any edits, any cancellation, either pipe -- both role automata are
+   in a returned state and the outcomes are what they returned (in the model a read on a stream on which nothing more
+   will arrive ends in an error: EOF after the caller closed the failed connection, the deadline otherwise; the harness
+   checks the real code under a wall-clock guard) *)
+Theorem c14_both_sides_return : forall fx c, exists oo oi,
+  w_o (hs_world fx c) = OD oo /\ w_i (hs_world fx c) = ID oi /\ hs_run fx c = (oo, oi).
+Proof. exact both_sides_return. Qed.
+Print Assumptions c14_both_sides_return.
+
+(* non-vacuity: the hypotheses of c14_cancel_safe hold for each of the 7 positions of the window, compatible and
+   incompatible ends; the two-generals exception really occurs; outside the window the run is the uncancelled one *)
 Definition exCancel (side : bool) (k : N) (wfail : bool) : hs_case :=
   mkCase (exA 5 [5] true) (exB 5 [5] true) APass APass APass APass (Some (side, k)) wfail pooled_zero pooled_zero.
 Example c14_cancel_examples :
@@ -305,4 +339,34 @@ Example c14_cancel_examples :
   hs_run true (exCancel true 3 false) = (Err ECtx, Ok (mkRes (Some 0) 5 (mkCv 2 false))) /\  (* two generals *)
   hs_run true (exCancel true 3 true) = (Err ECtx, Err EOther) /\
   hs_run true (exCancel false 2 false) = (Err EOther, Err ECtx).
+Proof. vm_compute. repeat split; reflexivity. Qed.
+
+Example c14_cancel_safe_nonvacuous :
+  let okO := Ok (mkRes (Some 1) 5 (mkCv 3 false)) in
+  let okI := Ok (mkRes (Some 0) 5 (mkCv 2 false)) in
+  let window := [(true, 1); (false, 1); (true, 2); (false, 2); (true, 3); (false, 3); (true, 4)] in
+  (* the hypotheses of c14_cancel_safe are met at all 7 positions *)
+  map (fun sk => cancel_eff (exCancel (fst sk) (snd sk) false)) window = map (@Some _) window /\
+  forallb (fun sk => all_pass (exCancel (fst sk) (snd sk) true)) window = true /\
+  (* what happens there, buffered pipe (a write to a closed end vanishes) ... *)
+  map (fun sk => hs_run true (exCancel (fst sk) (snd sk) false)) window =
+    [ (Err ECtx, Err EOther); (Err EOther, Err ECtx); (Err ECtx, Err EOther); (Err EOther, Err ECtx);
+      (Err ECtx, okI) (* two generals *); (Err EOther, Err ECtx); (Err ECtx, okI) (* two generals *) ] /\
+  (* ... and net.Pipe-like (the write of the final ack to the closed end fails) *)
+  map (fun sk => hs_run true (exCancel (fst sk) (snd sk) true)) window =
+    [ (Err ECtx, Err EOther); (Err EOther, Err ECtx); (Err ECtx, Err EOther); (Err EOther, Err ECtx);
+      (Err ECtx, Err EOther); (Err EOther, Err ECtx); (Err ECtx, okI) ] /\
+  (* ends that do not accept each other, initiator cancelled late: nobody succeeds *)
+  hs_run true (mkCase (exA 5 [5] true) (exB 6 [5] true) APass APass APass APass (Some (true, 3)) false pooled_zero pooled_zero)
+    = (Err (EProto 6), Err (EProto 6)) /\
+  (* outside the window: the responder's context cancelled while its final ack travels -- the run of the uncancelled case *)
+  cancel_eff (exCancel false 4 true) = None /\
+  hs_run true (exCancel false 4 true) = (okO, okI) /\ hs_run true (no_cancel (exCancel false 4 true)) = (okO, okI) /\
+  (* observations the predicate refuses: the cancelled initiator reports success; the responder reports success although
+     the initiator was cancelled before it acknowledged; the initiator succeeds next to a cancelled responder *)
+  spec_C14 (exCancel true 3 false) okO okI = false /\
+  spec_C14 (exCancel true 2 false) (Err ECtx) okI = false /\
+  spec_C14 (exCancel false 3 false) okO (Err ECtx) = false /\
+  (* and the two-generals observation it accepts *)
+  spec_C14 (exCancel true 3 false) (Err ECtx) okI = true.
 Proof. vm_compute. repeat split; reflexivity. Qed.
